@@ -25,11 +25,12 @@ def sq(x0, y0, x1, y1):
     return ((x0, y0), (x1, y0), (x1, y1), (x0, y1), (x0, y0))
 
 
-def make_frame(n=16, shift=0):
+def make_frame(n=16, shift=0, scale=1, reverse=False):
     import pandas as pd
     from spatialpandas import GeoDataFrame
-    pts = [(i + shift, (i * 7) % 16) for i in range(n)]
-    polys = [(sq(2 * ((i * 5) % 16) + shift, i, 2 * ((i * 5) % 16) + 1 + shift, i + 2),) for i in range(n)]
+    order = list(range(n))[::-1] if reverse else list(range(n))
+    pts = [((i + shift) / scale, ((i * 7) % 16) / scale) for i in order]
+    polys = [(tuple((x / scale, y / scale) for x, y in sq(2 * ((i * 5) % 16) + shift, i, 2 * ((i * 5) % 16) + 1 + shift, i + 2)),) for i in order]
     pts[3] = None
     polys[5] = None
     if n > 6:
@@ -133,14 +134,22 @@ def boxes_for(extents):
     return out
 
 
-def check_dataset(col, scratch, writer, nparts, multi, thorough, seed):
+def check_dataset(col, scratch, writer, nparts, multi, thorough, seed, variant="int"):
     from spatialpandas.io import read_parquet_dask
     S = "synchronous"
     base = os.path.join(scratch, f"c12-{os.getpid()}")
     shutil.rmtree(base, ignore_errors=True)
     os.makedirs(base)
-    case0 = {"writer": writer, "npartitions": nparts, "multi": multi}
-    P = make_frame(16)
+    case0 = {"writer": writer, "npartitions": nparts, "multi": multi, "variant": variant}
+    # variant "thirds": coordinates k/3 (no short decimal expansion); "rewrite": the dataset replaces, at the same path and in
+    # the same process, one with the same schema, partition count and equally long metadata that was already read
+    P = make_frame(16, scale=3 if variant == "thirds" else 1, shift=10 if variant == "rewrite" else 0)
+    if variant == "rewrite":
+        from spatialpandas.io import read_parquet_dask as _rpd
+        prev_path = os.path.join(base, "ds.parq")
+        write_dataset(make_frame(16, shift=10, reverse=True), prev_path, writer, nparts)
+        _ = _rpd(prev_path)._partition_bounds
+        shutil.rmtree(prev_path)
     try:
         if multi == "single":
             paths = [os.path.join(base, "ds.parq")]
@@ -154,6 +163,9 @@ def check_dataset(col, scratch, writer, nparts, multi, thorough, seed):
             arg = paths if multi == "list" else os.path.join(base, "d*.parq")
             if multi == "list_reversed":
                 paths = paths[::-1]
+                arg = paths
+            if multi == "list_repeated":
+                paths = [paths[0], paths[1], paths[0]]
                 arg = paths
     except Exception as ex:
         col.violation("write.raises", case0, f"{type(ex).__name__}: {str(ex)[:250]}")
@@ -277,13 +289,18 @@ def run(ctx):
                 (("single",) + ((("list", "glob", "list_reversed")[(nparts + ctx.seed) % 3],) if nparts in (2, 5, 11, 12, 16) else ()))
             for m in multis:
                 units.append((writer, nparts, m))
+    for writer in ("to_parquet", "pack"):
+        for nparts in (3, 8, 12):
+            units.append((writer, nparts, "single", "thirds"))
+            units.append((writer, nparts, "single", "rewrite"))
+        units.append((writer, 5, "list_repeated", "int"))
     P = make_frame(8)
     P.cx[0:1, 0:1]
     P["pts"].hilbert_distance(p=3)
 
     def work(col, i):
-        w, n, m = units[i]
-        check_dataset(col, scratch, w, n, m, ctx.thorough, ctx.seed)
+        w, n, m = units[i][:3]
+        check_dataset(col, scratch, w, n, m, ctx.thorough, ctx.seed, variant=units[i][3] if len(units[i]) > 3 else "int")
 
     units.sort(key=lambda u: -u[1])
     core.pmap(ctx, work, len(units), timeout=7200)
@@ -299,5 +316,5 @@ def run(ctx):
 
 def replay(ctx, case):
     col = core.Collector()
-    check_dataset(col, ctx.scratch(), case["writer"], case["npartitions"], case["multi"], True, 0)
+    check_dataset(col, ctx.scratch(), case["writer"], case["npartitions"], case["multi"], True, 0, variant=case.get("variant", "int"))
     return col.violations
